@@ -1,4 +1,5 @@
 // ===== trusted prelude: head (outside verus!) =====
+#![feature(allocator_api)]
 #![allow(unused_imports, dead_code, unused_variables, unused_mut, unused_parens, non_snake_case, unreachable_code, unused_assignments)]
 use vstd::prelude::*;
 use std::collections::{HashMap, HashSet};
@@ -8,6 +9,7 @@ use std::ops::{Add, Sub};
 use std::cmp::Ordering;
 use vstd::std_specs::cmp::{PartialOrdSpec, PartialEqSpec, PartialEqSpecImpl};
 use vstd::std_specs::iter::IteratorSpec;
+use vstd::std_specs::hash::*;
 
 // TRUSTED stand-in for /repo/src/time.rs (81 lines wrapping std::time::Instant, shifted by one week)
 #[derive(Clone, Copy, PartialOrd, PartialEq, Ord, Eq)]
